@@ -168,6 +168,17 @@ class Facts:
                 out.append(_cause('app_disconnect', a['seq_start'],
                                   a['t_start'], True, {'server disconnect'},
                                   all_sessions='sid' not in a))
+            elif 'sid' not in a and s['connect'] and (
+                    a['seq_end'] is None or
+                    a['seq_end'] > s['connect'][0]['seq']):
+                # (table_before is taken when the call is scheduled.)  A
+                # session that was there when the call began is closed by
+                # it; one that connects while disconnect() (all sessions) is
+                # at work may or may not be caught by it
+                out.append(_cause(
+                    'app_disconnect', a['seq_start'], a['t_start'], True,
+                    {'server disconnect'}, all_sessions=True,
+                    optional=a['seq_start'] < s['connect'][0]['seq']))
         # re-entrant disconnect from a handler fault
         for e in s['events']:
             if e.get('fault') == 'disconnect':
@@ -258,16 +269,19 @@ def _disconnect_all_during_connect(h, f, sid, s):
     if not s['connect'] or not s['disconnect']:
         return None
     ec, ed = s['connect'][0], s['disconnect'][0]
-    if not (ed['seq'] < ec['seq'] and ed['arg'] == 'server disconnect'):
+    if ed['arg'] != 'server disconnect' or not (
+            ed['seq'] < ec['seq'] or not s['accepted']):
         return None
     for a in h.world.api_calls:
         if a['name'] == 'disconnect' and 'sid' not in a and \
-                a['seq_start'] is not None and a['seq_start'] < ec['seq'] \
+                a['seq_start'] is not None and a['seq_start'] < ed['seq'] \
                 and (a['seq_end'] is None or a['seq_end'] > ed['seq']):
             return ('Server.disconnect() called at t=%.4f closed session %s '
                     'after _handle_connect had put it into the table and '
-                    'before its connect handler ran: the application got '
+                    'before its connect handler had %s: the application got '
                     '%r' % (a['t_start'], sid,
+                            'run' if ed['seq'] < ec['seq'] else
+                            'rejected it (outcome %r)' % s.get('outcome'),
                             [e['ev'] for e in s['events']][:4]))
     return None
 
@@ -355,6 +369,8 @@ def _disconnect_due(f, causes, slack):
     ended before any deadline."""
     best = None
     for cz in causes:
+        if cz.get('optional'):
+            continue
         if cz['kind'] == 'silence':
             if not f.monitor:
                 continue
@@ -418,7 +434,7 @@ def _check_reason(f, sid, s, d, causes):
     # every other cause binds the reason
     if f.has_sleep:
         return out
-    imm = [c for c in occurred if c['immediate']]
+    imm = [c for c in occurred if c['immediate'] and not c.get('optional')]
     if imm:
         first = min(imm, key=lambda c: (c['t'], c['seq']))
         others = [c for c in causes if c is not first]
@@ -1227,8 +1243,12 @@ def check_upgrade(h, f=None):
                                  'second upgrade socket carried %r' % (
                                      sid, [d for _, _, d in conn.sent_s][:3]
                                  )))
+                # (the refusal is handled in the instant the request
+                # arrives; a disconnect in that same instant is its doing)
                 if conn.req.seq_arrive > first_ok and not f.causes(sid) \
-                        and (okc.server_closed or s['disconnect']):
+                        and any(d['seq'] > conn.req.seq_arrive and
+                                d['t'] <= conn.req.t_arrive + EPS
+                                for d in s['disconnect']):
                     out.append(V('second-upgrade-refused',
                                  '%s|second-upgrade-disturbed-first' % impl,
                                  'session %s: the established WebSocket was '
